@@ -178,6 +178,12 @@ type solverSpec struct {
 
 var solvers = map[string]solverSpec{
 	"z3-5.1": {name: "z3-5.1", cmd: func(f string, t int) []string { return []string{"z3-new", fmt.Sprintf("-T:%d", t), f} }},
+	"z3-5.1a": {name: "z3-5.1a", cmd: func(f string, t int) []string {
+		return []string{"z3-new", fmt.Sprintf("-T:%d", t), "smt.arith.solver=2", f}
+	}},
+	"z3-5.1r": {name: "z3-5.1r", cmd: func(f string, t int) []string {
+		return []string{"z3-new", fmt.Sprintf("-T:%d", t), "smt.random_seed=11", "sat.random_seed=11", "smt.arith.random_initial_value=true", f}
+	}},
 	"z3-4.8": {name: "z3-4.8", cmd: func(f string, t int) []string { return []string{"z3", fmt.Sprintf("-T:%d", t), f} }},
 	"cvc5": {name: "cvc5", pre: "(set-logic ALL)\n", cmd: func(f string, t int) []string {
 		return []string{"cvc5", "--produce-models", fmt.Sprintf("--tlimit=%d", t*1000), f}
@@ -256,17 +262,50 @@ func discharge(vc *VC, obls []*Obligation, opts solveOpts) {
 			if len(base) > 120 {
 				base = fmt.Sprintf("%s_%d", base[:100], i)
 			}
-			res, out, secs := runSolver(solvers["z3-5.1"], opts.dir, base, o.Query, opts.quickT, true)
-			o.Result, o.Backend, o.Secs, o.Output = res, "z3-5.1", secs, out
-			if res == "unsat" && opts.stability {
-				sp := solverSpec{name: "z3-5.1s", cmd: func(f string, t int) []string {
-					return []string{"z3-new", fmt.Sprintf("-T:%d", t), "smt.random_seed=11", "sat.random_seed=11", "smt.arith.random_initial_value=true", f}
-				}}
-				r2, _, s2 := runSolver(sp, opts.dir, base, o.Query, opts.quickT, false)
-				o.Secs += s2
-				if r2 != "unsat" {
-					o.Result, o.Output = "unstable", "discharged with the default seed but not with a perturbed seed ("+r2+")"
+			// first tier: three configurations of z3 5.1 - default, classic simplex core (smt.arith.solver=2), perturbed seed. Solver
+			// time on these VCs varies by two orders of magnitude between configurations for no semantic reason; an obligation is
+			// discharged when any configuration refutes it. In claim mode (stability) at least two of the three must do so within the
+			// (short) claim time-out, so that a later check, which tries all three with a longer time-out, has margin.
+			cfgs := []string{"z3-5.1", "z3-5.1a", "z3-5.1r"}
+			var res, out string
+			if opts.stability {
+				nUnsat := 0
+				for ci, c := range cfgs {
+					r1, o1, s1 := runSolver(solvers[c], opts.dir, base, o.Query, opts.quickT, c == cfgs[0])
+					o.Secs += s1
+					if r1 == "unsat" {
+						nUnsat++
+						if res != "unsat" {
+							res, out = r1, o1
+							o.Backend = c
+						}
+					} else if res == "" || (r1 == "sat" && res != "unsat") {
+						res, out = r1, o1
+						o.Backend = c
+					}
+					if r1 == "sat" {
+						break
+					}
+					if ci == 1 && nUnsat == 0 {
+						break // two configurations failed: the two-of-three rule cannot be met any more
+					}
+				}
+				o.Result, o.Output = res, out
+				if res == "unsat" && nUnsat < 2 {
+					o.Result, o.Output = "unstable", "discharged by only one of three solver configurations within the claim time-out"
 					return
+				}
+			} else {
+				for _, c := range cfgs {
+					r1, o1, s1 := runSolver(solvers[c], opts.dir, base, o.Query, opts.quickT, true)
+					o.Secs += s1
+					if res == "" || r1 == "unsat" || r1 == "sat" {
+						res, out = r1, o1
+						o.Result, o.Backend, o.Output = r1, c, o1
+					}
+					if r1 == "unsat" || r1 == "sat" {
+						break
+					}
 				}
 			}
 			if res == "unsat" || res == "sat" {
